@@ -138,6 +138,11 @@ def run(prog, rep):
                           f'after this statement has run once (for instance while validating a substrate model) every later validation sees '
                           f'the changed limits, and services the documented table forbids are accepted')
 
+    # R9: validate() walks the name-keyed service view: it sees every service only if service names are unique model-wide
+    rep.rule('R9', 'the service view validate() walks lists every service (names unique over all services)', floor=1)
+    from .c07 import check_name_keyed_views
+    check_name_keyed_views(prog, rep, 'R9', only=('CLASS_NetworkService',))
+
     # R3 / R4 on the validation code of the service
     uns = prog.cls(UNS)
     vmod = uns.module
